@@ -374,6 +374,9 @@ def jobs(tier):
     for sc in C02.SCENARIOS:
         if sc.startswith("reuse across glyphs") or sc.startswith("three unrelated"):
             js.append(Job(f"svg docs[{sc}]", C02.job_docs, scenario=sc, affine="translation"))
+    from harness import C12
+
+    js += C12.copy_svg_jobs(tier)
     return js
 
 
